@@ -560,6 +560,56 @@ fn run_op(op: i64, a: &[i64]) -> Result<Vec<i64>, Trap> {
                     Err(_) => vec![-2],
                 }
             }
+            55 => {
+                let mut b = vec![];
+                be16(&mut b, 2);
+                be16(&mut b, 1);
+                be16(&mut b, a[0] as u16);
+                be16(&mut b, a[1] as u16);
+                be16(&mut b, a[2] as u16);
+                let c = read_fonts::tables::layout::CoverageTable::read(FontData::new(&b)).unwrap();
+                vec![c.get(GlyphId::new(a[3] as u32)).map(|v| v as i64).unwrap_or(-1)]
+            }
+            56 => {
+                // Device with exactly value_count words; a[2] = values per word (8 / 4 / 2, 0 = other format)
+                let (ss, es, per) = (a[0] as u16, a[1] as u16, a[2] as usize);
+                let fmt: u16 = match per {
+                    8 => 1,
+                    4 => 2,
+                    2 => 3,
+                    _ => 0x7000,
+                };
+                let n = (es as usize + 1).saturating_sub(ss as usize);
+                let words = if per == 0 { 0 } else { n.div_ceil(per) };
+                let mut b = vec![];
+                be16(&mut b, ss);
+                be16(&mut b, es);
+                be16(&mut b, fmt);
+                b.resize(6 + 2 * words + 2, 0x55);
+                match read_fonts::tables::layout::DeviceOrVariationIndex::read(FontData::new(&b)).unwrap() {
+                    read_fonts::tables::layout::DeviceOrVariationIndex::Device(d) => vec![d.iter().count() as i64],
+                    _ => vec![0],
+                }
+            }
+            57 => {
+                let (off, len, datalen) = (a[0] as u32, a[1] as u32, a[2] as usize);
+                let mut t = vec![];
+                be16(&mut t, 0);
+                be32(&mut t, 10);
+                be32(&mut t, 0);
+                be16(&mut t, 1);
+                be16(&mut t, 0);
+                be16(&mut t, 0);
+                be32(&mut t, off);
+                be32(&mut t, len);
+                // the document list's data runs from offset 10 to the end of the table: pad to `datalen`
+                t.resize(10 + datalen.max(14), 0);
+                let svg = read_fonts::tables::svg::Svg::read(FontData::new(&t)).unwrap();
+                match svg.glyph_data(GlyphId::new(0)).unwrap() {
+                    Some(d) => vec![d.len() as i64],
+                    None => vec![-1],
+                }
+            }
             40 => {
                 use read_fonts::tables::glyf::PointCoord;
                 vec![<i32 as PointCoord>::midpoint(i(0), i(1)) as i64]
@@ -947,6 +997,28 @@ fn correspondence(st: &mut Stats, cw: &mut CaseWriter, rng: &mut Rng, thorough: 
                 c.emit(54, v);
             }
         }
+    }
+    // Coverage format 2 `get`, Device `iter`, Svg `glyph_data` index arithmetic
+    for _ in 0..nr / 2 {
+        let u = |rng: &mut Rng| if rng.chance(1, 2) { *rng.pick(&[0i64, 1, 10, 20, 0x7FFF, 0x8000, 0xFFFE, 0xFFFF]) } else { rng.range(0, 40) };
+        let (sg, eg, sc) = (u(rng), u(rng), u(rng));
+        let gid = if rng.chance(1, 2) { sg + rng.range(0, 3) } else { u(rng) };
+        c.emit(55, vec![sg, eg, sc, gid.min(0x1FFFF)]);
+        let d = |rng: &mut Rng| if rng.chance(1, 2) { *rng.pick(&[0i64, 1, 8, 9, 12, 0xFFFF, 0xFFFE, 0x8000]) } else { rng.range(0, 40) };
+        let v = vec![d(rng), d(rng), *rng.pick(&[8i64, 4, 2, 0])];
+        c.emit(56, v);
+        let o = |rng: &mut Rng| if rng.chance(1, 2) { *rng.pick(&[0i64, 1, 14, 20, 0x7FFFFFFF, 0x80000000, 0xFFFFFFFF, 0xFFFF0000, 0xFFFFFFFE]) } else { rng.range(0, 40) };
+        let v = vec![o(rng), o(rng), rng.range(14, 60)];
+        c.emit(57, v);
+    }
+    for v in [vec![10i64, 20, 0xFFFF, 11], vec![10, 20, 0xFFF5, 20], vec![0, 0xFFFF, 1, 0xFFFF]] {
+        c.emit(55, v);
+    }
+    for v in [vec![12i64, 8, 8], vec![0, 0xFFFF, 2], vec![0xFFFF, 0, 4], vec![0, 0xFFFF, 8]] {
+        c.emit(56, v);
+    }
+    for v in [vec![0xFFFFFFFFi64, 0xFFFF0000, 20], vec![0xFFFFFFFF, 1, 20], vec![14, 6, 20]] {
+        c.emit(57, v);
     }
     // += / -= of the fixed types
     for op in [33i64, 34] {
@@ -1692,7 +1764,7 @@ impl skrifa::color::ColorPainter for NopPainter {
 
 const API_NAMES: &[&str] = &[
     "metrics", "glyph_metrics", "charmap", "draw_unhinted", "draw_hinted_interpreter", "draw_autohint", "color_paint",
-    "names_attrs", "klippa_subset", "ift_select", "draw_harfbuzz_style", "bitmap_tables", "ift_apply", "bitmap_strikes", "sparse_bit_set",
+    "names_attrs", "klippa_subset", "ift_select", "draw_harfbuzz_style", "bitmap_tables", "ift_apply", "bitmap_strikes", "sparse_bit_set", "layout_parse_anywhere", "svg_and_misc_lookups",
 ];
 
 /// Runs API number `api` on the font bytes; all randomness from (sel).
@@ -1946,6 +2018,185 @@ fn run_api(bytes: &[u8], api: usize, sel: u64) -> Result<(), Trap> {
                     for strike in sbix.strikes().iter().flatten() {
                         for g in &all {
                             let _ = strike.glyph_data(GlyphId::new(*g));
+                        }
+                    }
+                }
+            }
+            15 => {
+                // Coverage / ClassDef / Device / Anchor readers applied at every even offset of the layout tables
+                // (every offset is reachable for a hostile font: offsets are font data), a fresh catch per offset.
+                use read_fonts::tables::gpos::AnchorTable;
+                use read_fonts::tables::layout::{ClassDef, CoverageTable, DeviceOrVariationIndex};
+                use read_fonts::collections::IntSet;
+                let mut first_trap: Option<Box<dyn std::any::Any + Send>> = None;
+                let mut set = IntSet::<GlyphId>::empty();
+                for g in &gids {
+                    set.insert(GlyphId::new(*g));
+                }
+                set.insert_range(GlyphId::new(10)..=GlyphId::new(12));
+                for tag in [b"GDEF", b"GPOS", b"GSUB", b"BASE", b"JSTF", b"MATH"] {
+                    let Some(data) = font.table_data(skrifa::Tag::new(tag)) else { continue };
+                    let b = data.as_bytes();
+                    let n_all = b.len() / 2;
+                    let n_off = n_all.min(400);
+                    let start = if n_all > 0 { rng.below(n_all as u64) as usize } else { 0 };
+                    for k in 0..n_off {
+                        let off = 2 * ((start + k) % n_all);
+                        let Some(d) = data.split_off(off) else { continue };
+                        let u = |i: usize| b.get(off + i).map(|x| (*x as u32) << 8).unwrap_or(0) | b.get(off + i + 1).map(|x| *x as u32).unwrap_or(0);
+                        let probe: Vec<u32> = vec![0, 1, 2, 0xFFFF, 0xFFFE, ng.saturating_sub(1), u(2), u(4), u(6), u(6).wrapping_sub(1), u(4).wrapping_add(1), u(10), u(12)];
+                        let set = &set;
+                        let r = std::panic::catch_unwind(std::panic::AssertUnwindSafe(|| {
+                            if let Ok(c) = CoverageTable::read(d) {
+                                for g in &probe {
+                                    let _ = c.get(GlyphId::new(*g));
+                                }
+                                let _ = c.iter().take(70000).count();
+                                let _ = c.intersects(set);
+                                let _ = match &c {
+                                    CoverageTable::Format1(t) => t.population(),
+                                    CoverageTable::Format2(t) => t.population(),
+                                };
+                            }
+                            if let Ok(c) = ClassDef::read(d) {
+                                for g in &probe {
+                                    let _ = c.get(read_fonts::types::GlyphId16::new(*g as u16));
+                                }
+                                let _ = c.iter().take(70000).count();
+                                let _ = c.population();
+                            }
+                            if let Ok(DeviceOrVariationIndex::Device(dev)) = DeviceOrVariationIndex::read(d) {
+                                let _ = dev.iter().take(70000).count();
+                            }
+                            if let Ok(AnchorTable::Format3(a)) = AnchorTable::read(d) {
+                                for dv in [a.x_device(), a.y_device()].into_iter().flatten().flatten() {
+                                    if let DeviceOrVariationIndex::Device(dev) = dv {
+                                        let _ = dev.iter().take(70000).count();
+                                    }
+                                }
+                            }
+                        }));
+                        if let Err(e) = r {
+                            if first_trap.is_none() {
+                                first_trap = Some(e);
+                            }
+                            break;
+                        }
+                    }
+                }
+                if let Some(e) = first_trap {
+                    std::panic::resume_unwind(e);
+                }
+            }
+            16 => {
+                // SVG documents for every glyph, plus the remaining per-glyph lookups of read-fonts' hand-written tables
+                let all: Vec<u32> = gids.iter().cloned().chain(0..ng.min(300)).collect();
+                if let Ok(svg) = font.svg() {
+                    for g in all.iter().chain([0xFFFFu32, 0xFFFE, 0x10000].iter()) {
+                        let _ = svg.glyph_data(GlyphId::new(*g));
+                    }
+                }
+                if let Ok(t) = font.vmtx() {
+                    for g in &all {
+                        let _ = (t.advance(GlyphId::new(*g)), t.side_bearing(GlyphId::new(*g)));
+                    }
+                }
+                if let Ok(t) = font.hmtx() {
+                    for g in &all {
+                        let _ = (t.advance(GlyphId::new(*g)), t.side_bearing(GlyphId::new(*g)));
+                    }
+                }
+                if let Ok(t) = font.vvar() {
+                    for g in &all {
+                        let _ = t.advance_height_delta(GlyphId::new(*g), loc.coords());
+                        let _ = t.tsb_delta(GlyphId::new(*g), loc.coords());
+                        let _ = t.v_org_delta(GlyphId::new(*g), loc.coords());
+                    }
+                }
+                if let Ok(t) = font.mvar() {
+                    for tag in [b"hasc", b"hdsc", b"xhgt", b"undo", b"strs"] {
+                        let _ = t.metric_delta(skrifa::Tag::new(tag), loc.coords());
+                    }
+                }
+                if let (Ok(loca), Ok(glyf)) = (font.loca(None), font.glyf()) {
+                    for g in &all {
+                        if let Ok(Some(gl)) = loca.get_glyf(GlyphId::new(*g), &glyf) {
+                            match gl {
+                                read_fonts::tables::glyf::Glyph::Simple(s) => {
+                                    let _ = s.points().take(70000).count();
+                                    let _ = s.num_points();
+                                }
+                                read_fonts::tables::glyf::Glyph::Composite(c) => {
+                                    let _ = c.components().take(1000).count();
+                                    let _ = c.instructions();
+                                }
+                            }
+                        }
+                    }
+                }
+                if let Ok(gvar) = font.gvar() {
+                    for g in &all {
+                        if let Ok(Some(vd)) = gvar.glyph_variation_data(GlyphId::new(*g)) {
+                            for (t, _) in vd.active_tuples_at(loc.coords()).take(64) {
+                                let _ = t.deltas().take(70000).count();
+                            }
+                        }
+                    }
+                }
+                if let Ok(name) = font.name() {
+                    for r in name.name_record().iter().take(200) {
+                        if let Ok(s) = r.string(name.string_data()) {
+                            let _ = s.chars().take(1000).count();
+                        }
+                    }
+                }
+                if let Ok(post) = font.post() {
+                    for g in &all {
+                        let _ = post.glyph_name(read_fonts::types::GlyphId16::new(*g as u16));
+                    }
+                }
+                if let Ok(colr) = font.colr() {
+                    for g in all.iter().chain([0xFFFFu32, 0x10000].iter()) {
+                        let _ = colr.v0_base_glyph(GlyphId::new(*g));
+                        let _ = colr.v1_base_glyph(GlyphId::new(*g));
+                        let _ = colr.v1_clip_box(GlyphId::new(*g));
+                    }
+                    for i in [0usize, 1, 2, 100, 0xFFFF, 0xFFFFFFFF, usize::MAX] {
+                        let _ = colr.v1_layer(i);
+                    }
+                }
+                if let Ok(loca) = font.loca(None) {
+                    for i in all.iter().map(|g| *g as usize).chain([usize::MAX, 0xFFFF, 0x10000]) {
+                        let _ = loca.get_raw(i);
+                    }
+                    if let (Ok(gvar), Ok(glyf)) = (font.gvar(), font.glyf()) {
+                        for g in &all {
+                            let _ = gvar.phantom_point_deltas(&glyf, &loca, loc.coords(), GlyphId::new(*g));
+                        }
+                    }
+                }
+                {
+                    use read_fonts::tables::variations::DeltaSetIndex;
+                    let stores = [font.hvar().ok().and_then(|t| t.item_variation_store().ok()), font.mvar().ok().and_then(|t| t.item_variation_store().and_then(|s| s.ok())), font.colr().ok().and_then(|t| t.item_variation_store().and_then(|s| s.ok()))];
+                    for store in stores.into_iter().flatten() {
+                        for (o, i) in [(0u16, 0u16), (0, 1), (1, 0), (0, 0xFFFF), (0xFFFF, 0), (0xFFFF, 0xFFFF), (0, 100)] {
+                            let _ = store.compute_delta(DeltaSetIndex { outer: o, inner: i }, loc.coords());
+                            let _ = store.compute_float_delta(DeltaSetIndex { outer: o, inner: i }, loc.coords());
+                        }
+                    }
+                }
+                if let Ok(name) = font.name() {
+                    if let Some(recs) = name.lang_tag_record() {
+                        for r in recs.iter().take(50) {
+                            let _ = r.lang_tag(name.string_data()).map(|s| s.chars().take(100).count());
+                        }
+                    }
+                }
+                if let Some(Ok(ift)) = font.data_for_tag(skrifa::Tag::new(b"IFT ")).map(read_fonts::tables::ift::Ift::read) {
+                    if let read_fonts::tables::ift::Ift::Format1(m) = ift {
+                        let _ = m.entry_count();
+                        for i in [0u16, 1, 7, 8, 299, 400, 0xFFFF, 0xFFF8] {
+                            let _ = m.is_entry_applied(i);
                         }
                     }
                 }
@@ -2512,6 +2763,90 @@ fn gen_structured(rng: &mut Rng, idx: u64) -> (Vec<u8>, serde_json::Value, Vec<u
                 vec![9],
             )
         }
+        25 => {
+            // SVG table with hostile document records
+            let n = rng.range(1, 3) as usize;
+            let e32 = [0u32, 1, 10, 0x20, 0x7FFFFFFF, 0x80000000, 0xFFFFFFFF, 0xFFFFFFFE, 0xFFFFFFF0, 0xFFFF0000];
+            let mut recs = vec![];
+            let mut g = 0u16;
+            for _ in 0..n {
+                let end = g.saturating_add(*rng.pick(&[0u16, 1, 2, 0xFFFF]));
+                recs.push((g, end, *rng.pick(&e32), *rng.pick(&e32)));
+                g = end.saturating_add(1);
+            }
+            let mut t = vec![];
+            be16(&mut t, 0);
+            be32(&mut t, 10);
+            be32(&mut t, 0);
+            be16(&mut t, recs.len() as u16);
+            for (a, b, o, l) in &recs {
+                be16(&mut t, *a);
+                be16(&mut t, *b);
+                be32(&mut t, *o);
+                be32(&mut t, *l);
+            }
+            t.extend_from_slice(b"<svg/>");
+            let mut tabs = simple_glyf_tables();
+            tabs.push((*b"SVG ", t));
+            let refs: Vec<(&[u8; 4], Vec<u8>)> = tabs.iter().map(|(t, b)| (t, b.clone())).collect();
+            (sfnt(&refs), json!({"kind": "svg-document-records", "records (startGlyphID, endGlyphID, svgDocOffset, svgDocLength)": recs, "base": "SIMPLE_GLYF + this `SVG ` table; Svg::glyph_data(gid)"}), vec![16])
+        }
+        26 => {
+            // hostile Coverage format 2 / ClassDef format 2 / Device blobs as the content of a GPOS table (parse-anywhere)
+            let mut t = vec![];
+            let mut desc = vec![];
+            for _ in 0..rng.range(1, 3) {
+                match rng.range(0, 2) {
+                    0 => {
+                        let n = rng.range(1, 4) as usize;
+                        be16(&mut t, 2);
+                        be16(&mut t, n as u16);
+                        let mut recs = vec![];
+                        let mut g = *rng.pick(&[0u16, 1, 10]);
+                        for _ in 0..n {
+                            let end = if rng.chance(1, 6) { g.wrapping_sub(1) } else { g.saturating_add(*rng.pick(&[0u16, 1, 5, 0x100, 0xFFFF])) };
+                            let sci = *rng.pick(&[0u16, 1, 0xFFFF, 0xFFFE, 0xFFF0, 0x7FFF, 0x8000]);
+                            recs.push((g, end, sci));
+                            be16(&mut t, g);
+                            be16(&mut t, end);
+                            be16(&mut t, sci);
+                            g = if rng.chance(1, 6) { g } else { end.wrapping_add(*rng.pick(&[1u16, 2, 0])) };
+                        }
+                        desc.push(format!("CoverageFormat2 ranges (start, end, startCoverageIndex) {:?}", recs));
+                    }
+                    1 => {
+                        let (s0, e0) = (*rng.pick(&[0u16, 1, 8, 12, 0xFFFF, 0xFFFE, 0x8000]), *rng.pick(&[0u16, 1, 7, 9, 12, 20, 0xFFFF, 0xFFFE, 0x7FFF]));
+                        let fmt = *rng.pick(&[1u16, 2, 3, 0, 4, 0x8000]);
+                        be16(&mut t, s0);
+                        be16(&mut t, e0);
+                        be16(&mut t, fmt);
+                        for _ in 0..rng.range(0, 6) {
+                            be16(&mut t, *rng.pick(&[0u16, 0xFFFF, 0x8000, 0x7FFF, 0x8080, 0xAAAA]));
+                        }
+                        desc.push(format!("Device start_size {s0} end_size {e0} delta_format {fmt}"));
+                    }
+                    _ => {
+                        let n = rng.range(1, 3) as usize;
+                        be16(&mut t, 2);
+                        be16(&mut t, n as u16);
+                        let mut recs = vec![];
+                        for _ in 0..n {
+                            let r = (*rng.pick(&[0u16, 5, 0xFFFF, 0xFFFE]), *rng.pick(&[0u16, 4, 9, 0xFFFF]), *rng.pick(&[0u16, 1, 0xFFFF]));
+                            be16(&mut t, r.0);
+                            be16(&mut t, r.1);
+                            be16(&mut t, r.2);
+                            recs.push(r);
+                        }
+                        desc.push(format!("ClassDefFormat2 ranges (start, end, class) {:?}", recs));
+                    }
+                }
+            }
+            t.extend_from_slice(&[0; 16]);
+            let mut tabs = simple_glyf_tables();
+            tabs.push((*b"GPOS", t));
+            let refs: Vec<(&[u8; 4], Vec<u8>)> = tabs.iter().map(|(t, b)| (t, b.clone())).collect();
+            (sfnt(&refs), json!({"kind": "layout-subtable-blobs", "blobs (concatenated, as the GPOS table content)": desc, "base": "SIMPLE_GLYF + this `GPOS` table; readers applied at every even offset"}), vec![15])
+        }
         27 | 28 => {
             // the sparse bit set decoder driven directly: bias x max_value x structured stream
             let (stream, txt) = gen_sbs(rng);
@@ -2871,10 +3206,20 @@ fn search(seed: u64, thorough: bool, st: &mut Stats, fonts: &[(&'static str, Vec
 // ------------------------------------------------------------------------------------------------
 fn strip_code(src: &str) -> String {
     // remove comments, string/char literals; cut the trailing `#[cfg(test)] mod tests`
-    let src = match src.find("#[cfg(test)]\nmod ") {
-        Some(i) => &src[..i],
-        None => src,
-    };
+    // cut the inline test module (`#[cfg(test)] mod tests { ... }` at the end); `#[cfg(test)] mod x;` declarations
+    // near the top of a file must not cut anything
+    let mut cut = src.len();
+    let mut from = 0;
+    while let Some(i) = src[from..].find("#[cfg(test)]\nmod ") {
+        let at = from + i;
+        let line_end = src[at + 13..].find('\n').map(|e| at + 13 + e).unwrap_or(src.len());
+        if src[at + 13..line_end].trim_end().ends_with('{') {
+            cut = at;
+            break;
+        }
+        from = at + 13;
+    }
+    let src = &src[..cut];
     let b: Vec<char> = src.chars().collect();
     let mut out = String::with_capacity(b.len());
     let mut i = 0;
@@ -3087,6 +3432,64 @@ fn census() -> serde_json::Value {
     })
 }
 
+/// Census of read-fonts' hand-written table modules: every `pub fn` (non-test code) whose body contains integer
+/// arithmetic (`+ - * <<`, compound forms, not wrapping_/checked_/saturating_ only), and whether this harness
+/// calls a method of that name (`.name(` / `::name(` occurs in this file's own source).
+fn entry_point_census() -> serde_json::Value {
+    let own = include_str!("c20.rs");
+    let repo = std::env::var("FV_REPO").unwrap_or_else(|_| "/repo".into());
+    let mut files = vec![];
+    walk(std::path::Path::new(&format!("{repo}/read-fonts/src/tables")), &mut files);
+    walk(std::path::Path::new(&format!("{repo}/read-fonts/src/collections")), &mut files);
+    let mut driven = vec![];
+    let mut not_driven = vec![];
+    for f in files {
+        let fs = f.to_string_lossy().to_string();
+        let Ok(src) = std::fs::read_to_string(&f) else { continue };
+        let code = strip_code(&src);
+        let bytes: Vec<char> = code.chars().collect();
+        let mut i = 0;
+        let text: String = bytes.iter().collect();
+        while let Some(pos) = text[i..].find("pub fn ") {
+            let start = i + pos;
+            let name: String = text[start + 7..].chars().take_while(|c| c.is_alphanumeric() || *c == '_').collect();
+            // body = from the first '{' after the signature to its matching '}'
+            let Some(ob) = text[start..].find('{') else { break };
+            let mut depth = 0i32;
+            let mut end = start + ob;
+            for (k, ch) in text[start + ob..].char_indices() {
+                if ch == '{' {
+                    depth += 1;
+                } else if ch == '}' {
+                    depth -= 1;
+                    if depth == 0 {
+                        end = start + ob + k;
+                        break;
+                    }
+                }
+            }
+            let body = &text[start + ob..=end.min(text.len() - 1)];
+            let mut c = Census::default();
+            census_file(body, &mut c);
+            if c.binary_checked + c.unary_neg + c.abs_calls > 0 && !name.is_empty() {
+                let rel = fs.split("/read-fonts/src/").last().unwrap_or(&fs).to_string();
+                let called = own.contains(&format!(".{}(", name)) || own.contains(&format!("::{}(", name));
+                let entry = format!("{}::{}", rel, name);
+                if called {
+                    driven.push(entry);
+                } else {
+                    not_driven.push(entry);
+                }
+            }
+            i = end.max(start + 7);
+        }
+    }
+    driven.sort();
+    not_driven.sort();
+    json!({"method": "pub fns of read-fonts/src/{tables,collections} (hand-written, non-test) whose body contains unchecked integer arithmetic; 'driven' = this harness calls a method of that name directly (indirect reachability through skrifa/klippa/IFT APIs is not counted)",
+           "with_arithmetic": driven.len() + not_driven.len(), "driven_directly": driven.len(), "driven": driven, "not_driven_directly": not_driven})
+}
+
 fn struct_debug() {
     use incremental_font_transfer::patchmap::{intersecting_patches, SubsetDefinition};
     // hand-minimised IFT format 1 feature maps for the three patchmap.rs sites
@@ -3194,6 +3597,7 @@ fn main() {
         .collect();
     st.v.insert("kernel_trap_sites_direct_call".into(), kt.into());
     st.v.insert("census".into(), census());
+    st.v.insert("read_fonts_entry_point_census".into(), entry_point_census());
     let shards = cw.finish();
     st.v.insert("shards".into(), shards.into());
     st.v.insert("model_cases".into(), cw.len().into());
